@@ -577,6 +577,200 @@ pub proof fn lemma_control_suffix(w: int, u: bool, b: Seq<u8>, s: Seq<u8>)
         lemma_be16_prefix((b + s).skip(2).skip(2).skip(2).skip(2), b.len() - 8); }
 }
 
+// ---- C08: a data message that carries a Length ends where it says -----------------------------------------------
+pub proof fn lemma_data_suffix(w: int, b: Seq<u8>, s: Seq<u8>)
+    requires spec_data(w, b) is Some, fw_l(w),
+    ensures
+        spec_data(w, b + s) is Some,
+        data_eq(spec_data(w, b + s)->Some_0.0, spec_data(w, b)->Some_0.0), //[C08:spec.data.suffix_value]
+        spec_data(w, b + s)->Some_0.1 =~= spec_data(w, b)->Some_0.1 + s, //[C08:spec.data.suffix_rest]
+{
+    broadcast use group_spec_seq;
+    let c = b + s;
+    let need: int = 4 + 2 + (if fw_s(w) { 4int } else { 0 }) + (if fw_o(w) { 2int } else { 0 });
+    assert(b.len() >= need);
+    assert(be16(c) == be16(b)) by { assert(c.take(b.len() as int) =~= b); lemma_be16_prefix(c, b.len() as int); }
+    let b1 = b.skip(2); let c1 = c.skip(2);
+    assert(c1 =~= b1 + s);
+    assert(be16(c1) == be16(b1)) by { assert(c1.take(b1.len() as int) =~= b1); lemma_be16_prefix(c1, b1.len() as int); }
+    assert(c1.skip(2) =~= b1.skip(2) + s);
+    assert(be16(c1.skip(2)) == be16(b1.skip(2))) by {
+        assert(c1.skip(2).take(b1.len() - 2) =~= b1.skip(2)); lemma_be16_prefix(c1.skip(2), b1.len() - 2); }
+    let b2 = b1.skip(2).skip(2); let c2 = c1.skip(2).skip(2);
+    assert(c2 =~= b2 + s);
+    if fw_s(w) {
+        assert(be16(c2) == be16(b2)) by { assert(c2.take(b2.len() as int) =~= b2); lemma_be16_prefix(c2, b2.len() as int); }
+        assert(c2.skip(2) =~= b2.skip(2) + s);
+        assert(be16(c2.skip(2)) == be16(b2.skip(2))) by {
+            assert(c2.skip(2).take(b2.len() - 2) =~= b2.skip(2)); lemma_be16_prefix(c2.skip(2), b2.len() - 2); }
+    }
+    let b3 = if fw_s(w) { b2.skip(2).skip(2) } else { b2 };
+    let c3 = if fw_s(w) { c2.skip(2).skip(2) } else { c2 };
+    assert(c3 =~= b3 + s);
+    if fw_o(w) {
+        assert(be16(c3) == be16(b3)) by { assert(c3.take(b3.len() as int) =~= b3); lemma_be16_prefix(c3, b3.len() as int); }
+    }
+    let pad: int = if fw_o(w) { be16(b3) } else { 0 };
+    let b4 = if fw_o(w) { b3.skip(2) } else { b3 };
+    let c4 = if fw_o(w) { c3.skip(2) } else { c3 };
+    assert(c4 =~= b4 + s);
+    assert(b4.len() >= pad);
+    let b5 = b4.skip(pad); let c5 = c4.skip(pad);
+    assert(c5 =~= b5 + s);
+    let n: int = be16(b) - (2 + need + pad);
+    assert(0 < n <= b5.len());
+    assert(c5.take(n) =~= b5.take(n));
+    assert(c5.skip(n) =~= b5.skip(n) + s);
+}
+// C08 for messages: a control message, or a data message with a Length field, decodes to the same value whatever
+// follows it, and what is left over is exactly what followed it
+pub open spec fn msg_delimited(b: Seq<u8>) -> bool { b.len() >= 2 && (fw_t(be16(b)) || fw_l(be16(b))) }
+pub proof fn lemma_message_suffix(b: Seq<u8>, s: Seq<u8>, r: bool, v: bool, u: bool)
+    requires spec_message(b, r, v, u) is Some, msg_delimited(b),
+    ensures
+        spec_message(b + s, r, v, u) is Some,
+        msg_eq(spec_message(b + s, r, v, u)->Some_0.0, spec_message(b, r, v, u)->Some_0.0), //[C08:spec.message.suffix_value]
+        spec_message(b + s, r, v, u)->Some_0.1 =~= spec_message(b, r, v, u)->Some_0.1 + s, //[C08:spec.message.suffix_rest]
+{
+    broadcast use group_spec_seq;
+    let c = b + s;
+    assert(be16(c) == be16(b)) by { assert(c.take(b.len() as int) =~= b); lemma_be16_prefix(c, b.len() as int); }
+    assert(c.skip(2) =~= b.skip(2) + s);
+    let w = be16(b);
+    if fw_t(w) { lemma_control_suffix(w, u, b.skip(2), s); } else { lemma_data_suffix(w, b.skip(2), s); }
+}
+// back-to-back decoding (strictest options) of n messages, and the concatenation of n encodings
+pub open spec fn spec_messages(b: Seq<u8>, n: nat) -> Option<(Seq<MsgV>, Seq<u8>)>
+    decreases n,
+{
+    if n == 0 { Some((Seq::<MsgV>::empty(), b)) }
+    else {
+        match spec_message(b, true, true, true) {
+            None => None,
+            Some(r1) => match spec_messages(r1.1, (n - 1) as nat) {
+                None => None,
+                Some(r2) => Some((seq![r1.0] + r2.0, r2.1)),
+            },
+        }
+    }
+}
+pub open spec fn spec_enc_messages(ms: Seq<MsgV>) -> Seq<u8>
+    decreases ms.len(),
+{
+    if ms.len() == 0 { Seq::<u8>::empty() } else { spec_enc_message(ms[0]) + spec_enc_messages(ms.skip(1)) }
+}
+pub open spec fn msg_encodable_delimited(m: MsgV) -> bool {
+    match m {
+        MsgV::Control(c) => control_encodable(c),
+        MsgV::Data(d) => d.length is Some && data_encodable(d, spec_enc_data(d, 2).len() as int),
+    }
+}
+// what decoding spec_enc_message(m) gives (Length tracks the size for control messages; a written offset is consumed)
+pub open spec fn msg_decoded_form(m: MsgV) -> MsgV {
+    match m {
+        MsgV::Control(c) => MsgV::Control(CtlV { length: spec_enc_control(c, 2).len() as int, tunnel: c.tunnel, session: c.session, ns: c.ns, nr: c.nr, avps: c.avps }),
+        MsgV::Data(d) => MsgV::Data(DataV { prio: d.prio, length: d.length, tunnel: d.tunnel, session: d.session, ns_nr: d.ns_nr, offset: None,
+                                            data: d.data.skip(match d.offset { Some(o) => o, None => 0 }) }),
+    }
+}
+pub proof fn lemma_enc_message_delimited(m: MsgV)
+    requires msg_encodable_delimited(m),
+    ensures msg_delimited(spec_enc_message(m)),
+{
+    broadcast use group_spec_seq;
+    match m {
+        MsgV::Control(c) => {
+            lemma_flag_word(true, true, true, false, false, 2);
+            let w = spec_flag_word(true, true, true, false, false, 2);
+            let e = spec_enc_control(c, 2);
+            assert(be16(e) == w);
+        },
+        MsgV::Data(d) => {
+            lemma_flag_word(false, true, d.ns_nr is Some, d.offset is Some, d.prio, 2);
+            let w = spec_flag_word(false, true, d.ns_nr is Some, d.offset is Some, d.prio, 2);
+            let e = spec_enc_data(d, 2);
+            assert(be16(e) == w);
+        },
+    }
+}
+// one step: an encodable delimited message followed by anything decodes to its decoded form and leaves what followed
+pub proof fn lemma_message_step(m: MsgV, t: Seq<u8>)
+    requires msg_encodable_delimited(m),
+    ensures ({
+        let r = spec_message(spec_enc_message(m) + t, true, true, true);
+        r is Some && r->Some_0.1 =~= t && msg_eq(r->Some_0.0, msg_decoded_form(m))
+    }),
+{
+    let e = spec_enc_message(m);
+    lemma_enc_message_delimited(m);
+    match m {
+        MsgV::Control(c) => { lemma_control_roundtrip(c); },
+        MsgV::Data(d) => { lemma_data_roundtrip(d); },
+    }
+    let r0 = spec_message(e, true, true, true);
+    assert(r0 is Some && r0->Some_0.1.len() == 0);
+    assert(msg_eq(r0->Some_0.0, msg_decoded_form(m)));
+    lemma_message_suffix(e, t, true, true, true);
+    assert(r0->Some_0.1 + t =~= t);
+}
+pub proof fn lemma_msg_eq_trans(a: MsgV, b: MsgV, c: MsgV)
+    requires msg_eq(a, b), msg_eq(b, c),
+    ensures msg_eq(a, c),
+{ }
+// C08 + C09 at the level of message sequences: n delimited messages encoded one after another decode back to back to
+// the n values (in order), leaving exactly the octets that followed them
+pub proof fn lemma_messages_back_to_back(ms: Seq<MsgV>, tail: Seq<u8>)
+    requires forall |i: int| 0 <= i < ms.len() ==> msg_encodable_delimited(#[trigger] ms[i]),
+    ensures ({
+        let r = spec_messages(spec_enc_messages(ms) + tail, ms.len());
+        r is Some && r->Some_0.1 =~= tail && r->Some_0.0.len() == ms.len()
+        && forall |i: int| 0 <= i < ms.len() ==> msg_eq(#[trigger] r->Some_0.0[i], msg_decoded_form(ms[i]))
+    }), //[C08,C09:spec.messages.back_to_back]
+    decreases ms.len(),
+{
+    if ms.len() == 0 {
+        assert(spec_enc_messages(ms) + tail =~= tail);
+    } else {
+        let m = ms[0];
+        let rest = ms.skip(1);
+        let e = spec_enc_message(m);
+        let t2 = spec_enc_messages(rest) + tail;
+        assert(spec_enc_messages(ms) + tail =~= e + t2);
+        lemma_message_step(m, t2);
+        let r1 = spec_message(e + t2, true, true, true)->Some_0;
+        assert(r1.1 == t2);
+        assert forall |i: int| 0 <= i < rest.len() implies msg_encodable_delimited(#[trigger] rest[i]) by { assert(rest[i] == ms[i + 1]); }
+        lemma_messages_back_to_back(rest, tail);
+        let r2 = spec_messages(t2, rest.len())->Some_0;
+        let r = spec_messages(e + t2, ms.len());
+        assert(rest.len() == ms.len() - 1);
+        assert(r == Some((seq![r1.0] + r2.0, r2.1)));
+        let out = r->Some_0.0;
+        assert(out.len() == ms.len());
+        assert forall |i: int| 0 <= i < ms.len() implies msg_eq(#[trigger] out[i], msg_decoded_form(ms[i])) by {
+            if i > 0 { assert(out[i] == r2.0[i - 1]); assert(rest[i - 1] == ms[i]); }
+            else { assert(out[0] == r1.0); }
+        }
+    }
+}
+// C09 at the level of message sequences: appending encodings one after another to a writer that holds `pre` gives
+// `pre` followed by the concatenation of the individual encodings (each step is the `prefix`/`bytes` clause of write)
+pub open spec fn spec_write_messages(pre: Seq<u8>, ms: Seq<MsgV>) -> Seq<u8>
+    decreases ms.len(),
+{
+    if ms.len() == 0 { pre } else { spec_write_messages(pre + spec_enc_message(ms[0]), ms.skip(1)) }
+}
+pub proof fn lemma_write_messages(pre: Seq<u8>, ms: Seq<MsgV>)
+    ensures spec_write_messages(pre, ms) =~= pre + spec_enc_messages(ms), //[C09:spec.messages.write_concat]
+    decreases ms.len(),
+{
+    broadcast use group_spec_seq;
+    if ms.len() > 0 {
+        lemma_write_messages(pre + spec_enc_message(ms[0]), ms.skip(1));
+        assert((pre + spec_enc_message(ms[0])) + spec_enc_messages(ms.skip(1)) =~= pre + (spec_enc_message(ms[0]) + spec_enc_messages(ms.skip(1))));
+    }
+}
+
 // ---- C11: decryption inverts encryption (any 16-octet hash) ----------------------------------------------------
 proof fn lemma_xor_inv(a: u8, k: u8)
     ensures (a ^ k) ^ k == a,
